@@ -1,10 +1,11 @@
 """C19 — JSON.parse / JSON.stringify conform to the JSON grammar and round-trip (JsonSpec.tla).
 
-Binding A: TLC enumerates every transition of JsonSpec.tla for a list of small configurations ("plans"); the edge
-labels carry the specified outcome of JSON.parse / JSON.stringify / Object.MarshalJSON; harness/cmd/jsreplay drives
-harness/adaptors/json.js along tours covering every edge.  Parse plans: the state is a text grown piece by piece,
-self loops are single-character corruptions.  Stringify plans: the state is a value grown member by member, self
-loops are stringify calls over a replacer x space menu and MarshalJSON."""
+Binding A: TLC enumerates every transition of JsonSpec.tla for its plans (bounded configurations defined in the
+specification: PlanOf); the edge labels carry the specified outcome of JSON.parse / JSON.stringify /
+Object.MarshalJSON; harness/cmd/jsreplay drives harness/adaptors/json.js along tours covering every edge.
+Parse plans: the state is a text grown piece by piece, self loops are single-character corruptions.  Stringify
+plans: the state is a value grown member by member, self loops are stringify calls over a replacer x space menu and
+MarshalJSON.  (The module is JsonSpec, not Json: a Json.tla in /verif/specs would shadow the standard module.)"""
 import json
 import os
 import time
@@ -16,144 +17,69 @@ from vlib import HARNESS, NCPU, Inconclusive, go_build, workdir
 
 CFG = """SPECIFICATION Spec
 CONSTANTS
-  Mode = "%(mode)s"
-  PieceIds = {%(pieces)s}
-  MaxSteps = %(maxsteps)d
-  EditChars = {%(editchars)s}
-  EditOn = "%(editon)s"
-  Kinds = {%(kinds)s}
-  KeyIds = {%(keys)s}
-  MaxNodes = %(maxnodes)d
-  Reps = {%(reps)s}
-  Inds = {%(inds)s}
-INVARIANTS %(inv)s
-PROPERTIES DeadStays
+  Plans = {%s}
+  Big = %s
+INVARIANTS Agree NeverDead WellFormedInv RoundTrip ParsesBack ReprRoundTrip
 ACTION_CONSTRAINT Emit
 VIEW View
 CHECK_DEADLOCK FALSE
 """
+PARSE_PLANS = ["struct", "lex", "members", "deep", "edits"]
+STR_PLANS = ["shape", "leaves", "indent", "proxy", "keys"]
+INIT = {"plan": "none", "n": 0}
 
 
-def q(xs):
-    return ", ".join('"%s"' % x for x in xs)
+def cfg(names, big):
+    return CFG % (", ".join('"%s"' % x for x in names), "TRUE" if big else "FALSE")
 
 
-def cfg(mode, pieces=(), maxsteps=0, editchars=(), editon="none", kinds=(), keys=(), maxnodes=0, reps=(), inds=()):
-    return CFG % dict(mode=mode, pieces=q(pieces), maxsteps=maxsteps, editchars=", ".join(str(c) for c in editchars),
-                      editon=editon, kinds=q(kinds), keys=q(keys), maxnodes=maxnodes, reps=q(reps), inds=q(inds),
-                      inv="Agree WellFormedInv RoundTrip" if mode == "parse" else "ParsesBack ReprRoundTrip")
-
-
-# piece names of JsonSpec.tla!PieceText
-NUMS = ["n0", "n1", "nm0", "n15", "n10", "n010", "nE2", "ne400", "nme400", "nem400", "nmem400", "ne21", "nem7", "n000001",
-        "n1e20", "n1e21", "nehuge", "n0ehuge", "nemhuge", "nlong30", "nlongfrac", "n2p53", "nmin", "nmin3", "nmin2", "nmax",
-        "nmax9", "n15dig", "n0lead"]
-BADNUMS = ["b01", "b1dot", "bdot5", "bminus", "b1e", "b1eplus", "bplus1", "bhex", "b1dote", "bmm1", "bsep", "binf", "bnan",
-           "bninf", "bfullw", "bm01", "b1n"]
-STRS = ["sA", "sE", "s1", "sproto", "su41", "sesc", "suni", "sraw", "snul", "sspace", "sufff"]
-BADSTRS = ["bctl", "btab", "blf", "bx41", "bu12", "bu12g4", "bescq", "bsq", "bopen", "bescend", "bescv", "besc0", "bescU", "bdel"]
-LITS = ["true", "false", "null", "bnul", "bTrue", "bnulll", "bundef", "bcomment", "blinec", "bparen", "bsemi", "bident"]
-WS = ["sp", "ws3", "nbsp", "bom", "vt", "ff", "ls", "idsp"]
-MEMBERS = ["mb1", "m12", "ma3", "ma4", "mp5", "m106", "m97", "me8", "mmax", "mmax1", "m01", "mneg0", "mpobj", "mu61"]
-# code units used by corruptions:  " \ , : ] } 0 e . - space NBSP U+0001 u TAB
-EDITCH = [34, 92, 44, 58, 93, 125, 48, 101, 46, 45, 32, 160, 1, 117, 9]
-# value kinds of JsonSpec.tla!Node
-LEAVES = ["null", "true", "false", "n1", "n15", "nneg0", "nan", "inf", "ninf", "n1e21", "n1e-7", "nbig", "sa", "sempty", "sq",
-          "sctl", "suni", "slone", "slone2", "undef", "fun", "sym", "big", "bnum", "bnan", "bstr", "bfalse", "bsym", "bbig",
-          "tjkey", "tjnest", "tjundef", "tjnon", "tjfun", "big7", "args", "typed", "date0", "datenan", "cyc", "shared", "hole"]
-CONT = ["obj", "arr", "pxobj", "pxarr"]
-REPS = ["none", "nonfn", "dropa", "num", "idx0", "wrap", "allow_ba", "allow_mixed", "allow_nums", "allow_empty", "allow_h", "allow_px"]
-INDS = ["none", "n2", "n11", "n0", "nneg", "n2_9", "ninf", "nan", "bnum3", "tab", "s16", "sempty", "bstr", "uni11", "uni1", "btrue"]
-
-
-def plans(thorough):
-    T = thorough
-    return [
-        # every string over the structural tokens + one representative of each value class + a blank
-        ("struct", dict(mode="parse", pieces=["lb", "rb", "lc", "rc", "cm", "cl", "sA", "n1", "true", "sp"],
-                        maxsteps=7 if T else 5, editchars=[44, 34, 93], editon="accepted")),
-        # every lexeme representative (valid and malformed numbers, strings, literals, blanks) in every short context
-        ("lex", dict(mode="parse", pieces=["lb", "rb", "cm"] + NUMS + BADNUMS + STRS + BADSTRS + LITS + WS,
-                     maxsteps=4 if T else 3, editon="none")),
-        # objects: duplicate keys, __proto__, index / non-index keys in every order
-        ("members", dict(mode="parse", pieces=["lc", "rc", "cm", "sp"] + MEMBERS, maxsteps=8 if T else 6, editon="none")),
-        # nesting up to 8 (thorough: 12) levels of arrays and objects
-        ("deep", dict(mode="parse", pieces=["open4", "close4", "oopen", "oclose", "n1", "cm", "lb", "rb", "lc", "rc", "maobj", "maarr", "sA", "cl"],
-                      maxsteps=6 if T else 5, editon="none")),
-        # single-character corruptions of texts with every white space placement, every escape form, exponent forms
-        ("edits", dict(mode="parse", pieces=["wsrich", "sesc", "suni", "nmem400", "nE2", "n15", "mpobj", "lc", "rc", "lb", "rb", "cm", "true"],
-                       maxsteps=3, editchars=EDITCH, editon="accepted")),
-    ] + ([
-        # thorough: corruptions of every lexeme, accepted or not
-        ("editlex", dict(mode="parse", pieces=["lb", "rb"] + NUMS + STRS + ["true", "false", "null", "ws3"],
-                         maxsteps=2, editchars=EDITCH, editon="all")),
-    ] if T else []) + [
-        # shapes: key orders, nesting, empty containers, holes, undefined members x replacer kinds x indentation
-        ("shape", dict(mode="str", kinds=["obj", "arr", "n1", "undef", "hole"], keys=["a", "b", "1"], maxnodes=5 if T else 4,
-                       reps=["none", "allow_ba", "dropa"], inds=["none", "n2", "tab"])),
-        # every kind of value at top level, as array element and as object member x every replacer
-        ("leaves", dict(mode="str", kinds=LEAVES + CONT, keys=["a"], maxnodes=3 if T else 2, reps=REPS if not T else ["none", "num", "wrap", "allow_ba", "dropa"],
-                        inds=["none", "n2"])),
-        # every form of the space argument
-        ("indent", dict(mode="str", kinds=["obj", "arr", "n1", "sa"], keys=["a", "q"], maxnodes=4, reps=["none"], inds=INDS)),
-        # forwarding proxies as values and as allow-list, cyclic references
-        ("proxy", dict(mode="str", kinds=["pxobj", "pxarr", "n1", "undef", "hole", "cyc"], keys=["a", "1", "b"], maxnodes=4 if T else 3,
-                       reps=["none", "allow_ba", "wrap"], inds=["none", "n2"])),
-        # own-key order (array indices first), __proto__, non-enumerable and escaped keys x allow-lists
-        ("keys", dict(mode="str", kinds=["obj", "n1"], keys=["a", "b", "1", "0", "10", "__proto__", "h", "q"] + (["9", "empty"] if T else []),
-                      maxnodes=4, reps=["none", "allow_ba", "allow_h", "allow_mixed", "allow_nums"], inds=["none", "n2"])),
-    ]
-
-
-def adaptor(mode):
-    return ",".join(os.path.join(HARNESS, "adaptors", f) for f in ("json_%s.js" % mode, "json.js"))
-
-
-def init_of(mode):
-    if mode == "parse":
-        return {"text": "", "n": 0}, {"text": "", "n": 0}
-    return {"val": {"t": "none"}, "n": 0}, {"shape": "none", "n": 0}
+def groups(thorough):
+    """Each group is one TLC run + one walker run; groups run concurrently."""
+    if not thorough:
+        return [PARSE_PLANS, STR_PLANS]
+    return [["struct"], ["lex"], ["members", "deep", "edits", "editlex"], ["shape", "proxy", "indent"], ["leaves"], ["keys"]]
 
 
 def diagnose(mm):
     """A label for the probable root cause of a mismatch (only used to group the report lines)."""
     path = mm.get("path") or []
-    try:
-        last = json.loads(path[-1]) if isinstance(path[-1], str) else path[-1]
-    except (ValueError, IndexError):
-        return "other"
-    want, got = str(mm.get("want_res")), str(mm.get("got_res"))
-    if mm.get("mkind") == "panic":
+    if mm.get("mkind") in ("panic", "crash"):
         return "panic"
+    if not path or not isinstance(path[-1], dict):
+        return "other"
+    last = path[-1]
+    want, got = str(mm.get("want_res")), str(mm.get("got_res"))
     if last.get("op") in ("app", "edit"):
         if "Infinity" in want and "SyntaxError" in got:
             return "numeral beyond double range rejected"
         return "parse"
     if last.get("op") in ("str", "marshal"):
-        if any(isinstance(l, dict) and l.get("kind") == "bsym" for l in path) and ("undefined" in got or "null" in got):
-            return "Symbol object not serialised as object"
+        if any(isinstance(l, dict) and l.get("kind") == "bsym" for l in path):
+            return "Symbol object not serialised as an object"
         if last.get("ind") == "ninf":
             return "space=Infinity ignored"
         if last.get("ind") in ("uni11", "uni1"):
             return "non-ASCII gap string"
-        strip = lambda s: s.replace("<000a>", "").replace("<0009>", "").replace(" ", "")
+
+        def strip(s):
+            return s.replace("<000a>", "").replace("<0009>", "").replace(" ", "")
         if strip(want) == strip(got):
             return "indentation"
         return "stringify"
     return "other"
 
 
-def run_plan(binp, wd, name, p, thorough, tlc_workers, threads):
-    gwd = os.path.join(wd, name)
+def run_group(binp, wd, gi, names, thorough, tlc_workers, threads):
+    gwd = os.path.join(wd, "g%d" % gi)
     os.makedirs(gwd)
-    init, obs0 = init_of(p["mode"])
-    g, st = edges.build_graph("JsonSpec", cfg(**p), gwd, init, obs0=obs0, workers=tlc_workers, timeout=3000, heap="6g" if thorough else "3g")
-    ad = adaptor(p["mode"])
+    g, st = edges.build_graph("JsonSpec", cfg(names, thorough), gwd, INIT, obs0=INIT, workers=tlc_workers, timeout=3000,
+                              heap="12g" if thorough else "4g")
+    ad = os.path.join(HARNESS, "adaptors", "json.js")
     t1 = time.time()
-    reps, crashes = rp.run_walkers(binp, g, gwd, ["-adaptor", ad], procs=1, threads=threads, walks=40 if thorough else 4,
-                                   walklen=8, maxtour=12, timeout=3000)
+    reps, crashes = rp.run_walkers(binp, g, gwd, ["-adaptor", ad], procs=1, threads=threads, walks=200 if thorough else 20,
+                                   walklen=30, maxtour=150, timeout=3000, tag="w%d" % gi)
     st["walk_wall_s"] = round(time.time() - t1, 1)
-    return name, p, st, reps, crashes
+    return names, st, reps, crashes
 
 
 def run(chk, tier):
@@ -161,55 +87,72 @@ def run(chk, tier):
     thorough = tier == "thorough"
     binp = os.path.join(wd, "jsreplay")
     go_build("jsreplay", binp)
-    pl = plans(thorough)
-    conc = 4
+    gs = groups(thorough)
+    conc = 2 if not thorough else 3
     per = max(2, NCPU // conc)
     results = []
     with ThreadPoolExecutor(max_workers=conc) as ex:
-        futs = [ex.submit(run_plan, binp, wd, name, p, thorough, per, per) for name, p in pl]
+        futs = [ex.submit(run_group, binp, wd, gi, names, thorough, per, per) for gi, names in enumerate(gs)]
         for f in futs:
             results.append(f.result())       # (an Inconclusive raised in a worker thread propagates here)
     traces = 0
     unreplayed = []
-    per_plan = {}
-    for name, p, st, reps, crashes in results:
+    per_group = {}
+    for names, st, reps, crashes in results:
+        gname = "+".join(names)
         chk.add("states", st["states"])
         chk.add("transitions", st["transitions"])
         nv = len(chk.violations)
-        tot, nodes = rp.fold(chk, reps, crashes, "JsonSpec/%s" % name, {}, {"module": "JsonSpec", "plan": name})
-        # group the report by probable root cause
-        for i in range(nv, len(chk.violations)):
+        tot, nodes = rp.fold(chk, reps, crashes, "JsonSpec", {}, {"module": "JsonSpec", "plans": names})
+        for i in range(nv, len(chk.violations)):          # group the report by plan and probable root cause
             what, payload = chk.violations[i]
-            chk.violations[i] = ("JsonSpec/%s [%s]: %s" % (name, diagnose(payload), what.split(": ", 1)[-1]), payload)
+            path = payload.get("path") or [{}]
+            pl = path[0].get("name", "?") if isinstance(path[0], dict) else "?"
+            chk.violations[i] = ("JsonSpec/%s [%s]: %s" % (pl, diagnose(payload), what.split(": ", 1)[-1]), payload)
         chk.add("edges_total", tot["edges"])
         chk.add("edges_replayed", tot["covered"])
         chk.add("distinct_nontrivial", tot["nontrivial"])
         chk.add("evaluations", tot["steps"])
         chk.add("abstract_states_reached_on_real_objects", nodes)
         traces += tot["tours"]
-        per_plan[name] = {"states": st["states"], "edges": tot["edges"], "replayed": tot["covered"], "tlc_s": st["tlc_wall_s"], "walk_s": st["walk_wall_s"]}
+        per_group[gname] = {"states": st["states"], "edges": tot["edges"], "replayed": tot["covered"], "tlc_s": st["tlc_wall_s"],
+                            "walk_s": st["walk_wall_s"]}
         if tot["covered"] + tot["lost_to_known"] < tot["edges"]:
-            unreplayed.append("%s: %d of %d" % (name, tot["edges"] - tot["covered"], tot["edges"]))
-    chk.setcov("plans", per_plan)
+            unreplayed.append("%s: %d of %d" % (gname, tot["edges"] - tot["covered"], tot["edges"]))
+    # show every root cause among the first reported violations (finish() reports the first 40)
+    bycls, order = {}, []
+    for v in chk.violations:
+        c = v[0].split(":")[0]
+        if c not in bycls:
+            bycls[c] = []
+            order.append(c)
+        bycls[c].append(v)
+    mixed = []
+    while any(bycls.values()):
+        for c in order:
+            if bycls[c]:
+                mixed.append(bycls[c].pop(0))
+    chk.violations[:] = mixed
+    chk.setcov("plan_groups", per_group)
     chk.setcov("traces_validated_against_impl", traces)
     chk.setcov("exhaustive", True)
     if unreplayed and not chk.violations:
         raise Inconclusive("edges not replayed: " + "; ".join(unreplayed))
-    chk.setcov("rule", "every transition TLC generates for JsonSpec.tla under the listed plans is replayed on the real engine along tours from "
-               "the empty text / no value. Parse plans: texts grown from lexeme and phrase pieces (every structural token string, every "
-               "lexeme representative incl. numerals beyond double range and malformed forms, duplicate / __proto__ / index keys, nesting "
-               "<= 8, white space at every placement) and every single-character deletion / replacement / insertion of the accepted ones; "
-               "compared: SyntaxError or the rendered value (key order, -0, Infinity, property attributes, prototype), the identity "
-               "reviver, and JSON.stringify of the value. Stringify plans: values grown member by member (key orders, holes, boxed "
-               "primitives, toJSON, proxies, cycles, BigInt, symbols) x replacer menu x space menu; compared: the exact text / undefined "
-               "/ TypeError, the value JSON.parse returns for that text, Object.MarshalJSON. TLC checks on the same runs: grammar = "
-               "pushdown automaton on every text and corruption, canonical form is a fixed point, stringify texts parse back to the "
-               "serialisation tree for every white-space gap, JSON-representable values round-trip")
+    chk.setcov("rule", "every transition TLC generates for the plans of JsonSpec.tla is replayed on the real engine along tours from the "
+               "initial state. Parse plans: texts grown from lexeme and phrase pieces (every structural token string, every lexeme "
+               "representative incl. numerals beyond double range and malformed forms, duplicate / __proto__ / index keys, nesting "
+               "<= 8, white space at every placement) and every single-character deletion / replacement / insertion of the accepted "
+               "ones; compared: SyntaxError or the rendered value (key order, -0, Infinity, property attributes, prototype), the "
+               "identity reviver, and JSON.stringify of the value. Stringify plans: values grown member by member (key orders, holes, "
+               "boxed primitives, toJSON, proxies, cycles, BigInt, symbols) x replacer menu x space menu; compared: the exact text / "
+               "undefined / TypeError, the value JSON.parse returns for that text, Object.MarshalJSON. TLC checks on the same runs: "
+               "grammar = pushdown automaton on every text and corruption, canonical form is a fixed point, stringify texts parse back "
+               "to the serialisation tree for every white-space gap, JSON-representable values round-trip")
     chk.assumptions += ["lone surrogates in JSON.parse input are excluded (goja's documented deviation); a stringify text containing an "
                         "escaped lone surrogate is compared as text but not parsed back",
                         "number rendering of parsed values relies on the engine's Number::toString (String(x))",
                         "numerals outside the computed domain (more than 15 significant digits, near the overflow / underflow thresholds) "
-                        "are specified by a table of ten entries in JsonSpec.tla!LongNums"]
+                        "are specified by the table JsonSpec.tla!LongNums"]
 
 
 def replay(path):
@@ -218,9 +161,7 @@ def replay(path):
     binp = os.path.join(wd, "jsreplay")
     go_build("jsreplay", binp)
     m = json.load(open(path))["replay"]
-    first = (m.get("path") or [{}])[0]
-    mode = "parse" if first.get("op") in ("app", "edit") or m.get("plan") in ("struct", "lex", "members", "deep", "edits", "editlex") else "str"
-    r = subprocess.run([binp, "-replay", path, "-adaptor", adaptor(mode)], stdout=subprocess.PIPE, text=True)
+    r = subprocess.run([binp, "-replay", path, "-adaptor", os.path.join(HARNESS, "adaptors", "json.js")], stdout=subprocess.PIPE, text=True)
     got = json.loads(r.stdout)
     for l in m.get("path", []):
         print("   ", json.dumps(l))
